@@ -587,12 +587,18 @@ fn run_once(work: Work, steps: usize, crash_at: Option<usize>, bounce_after: Opt
     let total = steps + 40;
     let mut effects_at_crash = [0u64; 2];
     // victims: "v" by name, "v" by an anchored regex, or "v" and "vb" by one regex
-    let victims: &[usize] = if sel == 2 { &[0, 1] } else { &[0] };
+    let two = sel >= 2;
+    let victims: &[usize] = if two { &[0, 1] } else { &[0] };
     let names = ["v", "vb"];
     let crash = |sim: &mut turmoil::Sim| match sel {
         0 => sim.crash("v"),
         1 => sim.crash(regex::Regex::new("^v$").unwrap()),
-        _ => sim.crash(regex::Regex::new("^v").unwrap()),
+        2 => sim.crash(regex::Regex::new("^v").unwrap()),
+        _ => {
+            // the first match of the regex is already down when the regex call is made
+            sim.crash("v");
+            sim.crash(regex::Regex::new("^v").unwrap())
+        }
     };
     let bounce = |sim: &mut turmoil::Sim| match sel {
         0 => sim.bounce("v"),
@@ -627,7 +633,7 @@ fn run_once(work: Work, steps: usize, crash_at: Option<usize>, bounce_after: Opt
                 }
             }
             // a host that was not selected keeps its tasks
-            if sel != 2 && violation.is_none() && g.guards_dropped[1] != 0 {
+            if !two && violation.is_none() && g.guards_dropped[1] != 0 {
                 violation = Some(Violation::new("bystander-disturbed", format!("crashing v dropped {} tasks of host vb", g.guards_dropped[1])));
             }
             drop(g);
@@ -644,7 +650,7 @@ fn run_once(work: Work, steps: usize, crash_at: Option<usize>, bounce_after: Opt
                     violation = Some(Violation::new("still-running", format!("is_host_running({}) is true after crash", names[w])));
                 }
             }
-            if sel != 2 && violation.is_none() && (!sim.is_host_running("vb") || (k > 0 && sim.verif_host_counts("vb").0 != 1)) {
+            if !two && violation.is_none() && (!sim.is_host_running("vb") || (k > 0 && sim.verif_host_counts("vb").0 != 1)) {
                 violation = Some(Violation::new("bystander-disturbed", "crashing v stopped host vb or released its socket".into()));
             }
         }
@@ -706,7 +712,7 @@ fn run_once(work: Work, steps: usize, crash_at: Option<usize>, bounce_after: Opt
             }
         }
         let g = st.borrow();
-        let want = [expected_starts, if sel == 2 { expected_starts } else { 1 }];
+        let want = [expected_starts, if two { expected_starts } else { 1 }];
         if g.v_starts != want {
             violation = Some(Violation::new(
                 "factory-invocations",
@@ -728,7 +734,7 @@ pub fn scenario(ch: &mut Chooser, thorough: bool) -> Exec {
     let steps = if thorough { 20 } else { 12 };
     let mode = ch.choose("fault", 3); // 0 crash (+bounce), 1 bounce without crash, 2 crash-bounce-crash
     let at = ch.choose("fault_before_step", steps);
-    let sel = ch.choose("victim_selection(name|regex-one|regex-two-hosts)", 3);
+    let sel = ch.choose("victim_selection(name|regex-one|regex-two-hosts|name-then-regex-two-hosts)", 4);
     let is_tcp = matches!(work, Work::TcpReading | Work::TcpNotReading | Work::TcpSlowAccept | Work::TcpVictimWrites | Work::TcpPeerStreams);
     let readiness = matches!(work, Work::TcpNotReading | Work::TcpVictimDials) && ch.flag("peer_writes_with_writable_and_try_write");
     let reorder = work == Work::TcpNotReading && ch.flag("first_data_segment_delayed_so_later_ones_overtake_it");
@@ -864,7 +870,7 @@ pub fn scenario(ch: &mut Chooser, thorough: bool) -> Exec {
         // (f) uninvolved hosts: identical to the crash-free twin
         let twin = run_once(work, steps, None, None, None, None, 0, spawn_kind, readiness, false, reorder);
         let tl = twin.st.borrow().bystander.clone();
-        if sel != 2 && twin.st.borrow().v_effects[1] != run.st.borrow().v_effects[1] {
+        if sel < 2 && twin.st.borrow().v_effects[1] != run.st.borrow().v_effects[1] {
             violation = Some(Violation::new(
                 "bystander-disturbed",
                 format!("host vb was not selected, yet its heartbeat ran {} times instead of {} in the crash-free twin", run.st.borrow().v_effects[1], twin.st.borrow().v_effects[1]),
